@@ -112,9 +112,30 @@ def run(S):
                 names = [x for x in names if x is not None]
                 dup = b_or(*[str_eq(names[i], names[j]) for i in range(len(names)) for j in range(i + 1, len(names))])
                 ctx.must_hold(b_implies(b_or(has_comment, dup), same), 'reordered-despite-comment-or-duplicate', describe)
+                # "sorted": the resulting order is canonical, i.e. it does not depend on the order in the source.  (Which key is
+                # used is the implementation's choice; demanding a particular key would ask for more than the property states.)
                 texts = [n.into_text() for n in seq]
-                sorted_ok = b_and(*[b_not(str_lt(texts[i + 1], texts[i])) for i in range(len(texts) - 1)])
-                ctx.must_hold(b_implies(b_and(reorder, b_not(has_comment), b_not(dup)), sorted_ok), 'not-sorted-when-requested', describe)
+                if len(nodes) >= 2:
+                    for perm in (list(reversed(range(len(nodes)))), list(range(1, len(nodes))) + [0]):
+                        rec2 = {}
+
+                        def process2(m2, a, ci):
+                            rec2['seq'] = drain(m2, get_iter(m2, a[2]))
+                            return Opaque('stylist', ())
+                        m2 = S.machine(core, STD, ctx, overrides={'process_iterable_impl': process2, 'print_doc': print_doc, 'ListStylist::<\'_>::new': stylist_new})
+                        pr2 = m2.heap.alloc(m.load(pr))
+                        try:
+                            m2.call_fn(fn, [pr2, pp.context(), Vec([nodes[j] for j in perm])])
+                        except Panic:
+                            continue
+                        seq2 = [m2.load(x) if isinstance(x, Ref) else x for x in rec2.get('seq', [])]
+                        # only the import items themselves count; separators and blanks are dropped by the list stylist
+                        item_ids = {n.nid for n, t in zip(nodes, tags) if t != 'other'}
+                        t1 = [n.into_text() for n in seq if n.nid in item_ids]
+                        t2 = [n.into_text() for n in seq2 if n.nid in item_ids]
+                        same_texts = len(t2) == len(t1) and b_and(*[(False if len(x) != len(y) else str_eq(x, y)) for x, y in zip(t1, t2)])
+                        ctx.must_hold(b_implies(b_and(reorder, b_not(has_comment), b_not(dup)), same_texts), 'not-sorted-when-requested',
+                                      lambda mdl, perm=perm, seq2=seq2: dict(describe(mdl), other_input_order=perm, other_result=[n.into_text().concrete(mdl) for n in seq2]))
                 if not same:
                     ctx.witness('actually reordered')
                 ctx.witness('flag on but kept (comment)', b_and(reorder, has_comment, True))
@@ -263,4 +284,95 @@ def native_confirm(S, lab, info):
         d = S.driver.call('format_with_width', hexs(src), 80)
         if d[0] == 'ok' and order(unhexs(d[1])) != src_items:
             return dict(api='format_with_width', source=src, what='default configuration reorders import items: %s' % show(src))
+    return None
+
+
+def explore_spacing(S, K):
+    """C03 mechanism: with reordering on, the order chosen must not depend on the source's spacing inside items,
+    otherwise the formatted text (normalised spacing) is sorted differently by a second pass."""
+    kt = T.KT
+    core = S.core
+    fn = S.find_fn(core, 'PrettyPrinter::convert_import_items')
+    K_PATH, K_REN, K_ID = kt.k('ImportItemPath'), kt.k('RenamedImportItem'), kt.k('Ident')
+    found = []
+    import itertools
+
+    def ident(ctx, name):
+        c = z3.BitVec(name, 32)
+        ctx.assume(z3.And(z3.UGE(c, ord('a')), z3.ULE(c, ord('c'))))
+        return c
+
+    def build(chars, shape, wide):
+        """item node from identifier characters; `wide`: source spacing (two blanks / blanks around dots) vs formatted spacing"""
+        sp = Str.lit('  ') if wide else Str.lit(' ')
+        if shape == 'path1':
+            return Node(K_PATH, children=[Node(K_ID, text=Str((chars[0],)))])
+        if shape == 'path2':
+            kids = [Node(K_ID, text=Str((chars[0],)))]
+            if wide:
+                kids.append(Node(kt.k('Space'), text=Str.lit(' ')))
+            kids.append(Node(kt.k('Dot'), text=Str.lit('.')))
+            if wide:
+                kids.append(Node(kt.k('Space'), text=Str.lit(' ')))
+            kids.append(Node(K_ID, text=Str((chars[1],))))
+            return Node(K_PATH, children=kids)
+        p = Node(K_PATH, children=[Node(K_ID, text=Str((chars[0],)))])
+        return Node(K_REN, children=[p, Node(kt.k('Space'), text=sp), Node(kt.k('As'), text=Str.lit('as')), Node(kt.k('Space'), text=sp), Node(K_ID, text=Str((chars[1],)))])
+
+    for k in range(2, K + 1):
+        for shapes in itertools.product(('path1', 'path2', 'renamed'), repeat=k):
+            if all(s == 'path1' for s in shapes):
+                continue
+            def body(ctx, shapes=shapes):
+                chars = [(ident(ctx, 'n%d_a' % i), ident(ctx, 'n%d_b' % i)) for i in range(len(shapes))]
+                # each item independently has source spacing or formatted spacing in the first pass
+                wides = [ctx.branch(z3.Bool('wide%d' % i)) if shapes[i] != 'path1' else False for i in range(len(shapes))]
+                orders = []
+                for first_pass in (True, False):
+                    rec = {}
+
+                    def process(m, a, ci):
+                        rec['seq'] = drain(m, get_iter(m, a[2]))
+                        return Opaque('stylist', ())
+                    m = S.machine(core, STD, ctx, overrides={'process_iterable_impl': process, 'print_doc': (lambda mm, a, ci: D.opaque_doc('x')),
+                                                              "ListStylist::<'_>::new": (lambda mm, a, ci: Opaque('stylist0', ()))})
+                    nodes = [build(chars[i], shapes[i], wides[i] and first_pass) for i in range(len(shapes))]
+                    pr, cfg = pp.printer(m, cfg=Agg('Config', None, (2, 80, 2, True), pp.CFG_NAMES))
+                    m.call_fn(fn, [pr, pp.context(), Vec(nodes)])
+                    S.absorb(m)
+                    seq = [m.load(x) if isinstance(x, Ref) else x for x in rec['seq']]
+                    orders.append([nodes.index(n) for n in seq])
+
+                def describe(mdl):
+                    return dict(shapes=list(shapes), wide=list(wides), names=[(chr(model_int(mdl, a)), chr(model_int(mdl, b))) for a, b in chars],
+                                order_source_spacing=orders[0], order_formatted_spacing=orders[1])
+                ctx.must_hold(orders[0] == orders[1], 'C03:import-order-depends-on-source-spacing', describe)
+                if orders[0] != list(range(len(shapes))):
+                    ctx.witness('reordered')
+            ob, ex = S.explore('import.spacing[%s]' % ','.join(shapes), 'order of reordered import items is the same for source spacing and formatted spacing (%r)' % (shapes,),
+                               body, bounds=dict(items=k))
+            for lab, mdl, info in ex.violations:
+                found.append((lab, info))
+    return found
+
+
+def confirm_spacing(S, info):
+    items_wide = []
+    for shape, (a, b), wide in zip(info['shapes'], info['names'], info.get('wide') or [True] * len(info['shapes'])):
+        if shape == 'path1':
+            items_wide.append(a)
+        elif shape == 'path2':
+            items_wide.append(('%s . %s' if wide else '%s.%s') % (a, b))
+        else:
+            items_wide.append(('%s  as  %s' if wide else '%s as %s') % (a, b))
+    src = '#import "m.typ": ' + ', '.join(items_wide) + '\n'
+    if S.driver.call('erroneous', hexs(src))[1] == '1':
+        return None
+    a = S.driver.call('format', hexs(src), 80, 2, 1)
+    if a[0] != 'ok':
+        return None
+    b = S.driver.call('format', a[1], 80, 2, 1)
+    if b[0] != 'ok' or b[1] != a[1]:
+        return dict(api='format(format(x)) with reorder_import_items', source=src, first=unhexs(a[1]), second=unhexs(b[1]) if b[0] == 'ok' else b[0],
+                    what='with import reordering on, %s formats to %s and a second pass gives %s' % (show(src), show(unhexs(a[1])), show(unhexs(b[1]) if b[0] == 'ok' else b[0])))
     return None
